@@ -200,4 +200,28 @@ def C3.ctorScalar {α : Type} (s : α) : (V3 α) :=
 def C4.ctorScalar {α : Type} (s : α) : (C4 α) :=
   ⟨s, s, s, s⟩
 
+/-- extracted from the C++ template at T = Sym; 1 path(s) -/
+def C4.narrowCtor {α : Type} {β : Type} (cast : β → α) (a : C4 β) : (C4 α) :=
+  ⟨(cast a.r), (cast a.g), (cast a.b), (cast a.a)⟩
+
+/-- extracted from the C++ template at T = Sym; 1 path(s) -/
+def C4.narrowSetValueV {α : Type} {β : Type} (cast : β → α) (a : C4 α) (b : C4 β) : (C4 α) :=
+  ⟨(cast b.r), (cast b.g), (cast b.b), (cast b.a)⟩
+
+/-- extracted from the C++ template at T = Sym; 1 path(s) -/
+def C4.narrowGetValueV {α : Type} {β : Type} (cast : β → α) (a : C4 β) (b : C4 α) : (C4 α) :=
+  ⟨(cast a.r), (cast a.g), (cast a.b), (cast a.a)⟩
+
+/-- extracted from the C++ template at T = Sym; 1 path(s) -/
+def C4.narrowSetValueS {α : Type} {β : Type} (cast : β → α) (a : C4 α) (b : C4 β) : (C4 α) :=
+  ⟨(cast b.r), (cast b.g), (cast b.b), (cast b.a)⟩
+
+/-- extracted from the C++ template at T = Sym; 1 path(s) -/
+def C4.narrowGetValueS {α : Type} {β : Type} (cast : β → α) (a : C4 β) (b : C4 α) : (C4 α) :=
+  ⟨(cast a.r), (cast a.g), (cast a.b), (cast a.a)⟩
+
+/-- extracted from the C++ template at T = Sym; 1 path(s) -/
+def C3.narrowFromV3 {α : Type} {β : Type} (cast : β → α) (a : V3 β) : (V3 α) :=
+  ⟨(cast a.x), (cast a.y), (cast a.z)⟩
+
 end ImathVerif.Gen
